@@ -35,7 +35,7 @@ Proof. intros l m m' [H1 H2] Hm. split; [assumption|]. eapply Forall_impl; [|exa
 Ltac same H :=
   first [ exact (wf_groups _ H) | exact (wf_sg _ H) | exact (wf_sh _ H) | exact (wf_ig _ H) | exact (wf_ix _ H)
         | exact (wf_mst _ H) | exact (wf_node _ H) | exact (wf_dbn _ H) | exact (wf_poln _ H) | exact (wf_poldb _ H)
-        | exact (wf_refs _ H) | exact (wf_def _ H) | exact (wf_ptv _ H) | exact (wf_nonneg _ H) ].
+        | exact (wf_refs _ H) | exact (wf_def _ H) | exact (wf_ptv _ H) | exact (wf_nonneg _ H) | exact (wf_dur _ H) ].
 
 Lemma nonneg_get : forall c, wf c ->
   0 <= max_sg c /\ 0 <= max_sh c /\ 0 <= max_ig c /\ 0 <= max_ix c /\ 0 <= max_mst c /\ 0 <= max_node c /\ 0 <= ptnum c.
@@ -120,12 +120,13 @@ Qed.
 Lemma wf_pols_meta_gen : forall c c' P g, wf c ->
   pols c' = upd_first P g (pols c) ->
   (forall q, rp_db (g q) = rp_db q /\ rp_name (g q) = rp_name q /\ rp_sgs (g q) = rp_sgs q /\ rp_igs (g q) = rp_igs q) ->
+  (forall q, 0 < rp_sgdur q -> 0 < rp_sgdur (g q)) ->
   dbs c' = dbs c -> nodes c' = nodes c -> ptview c' = ptview c -> ptnum c' = ptnum c ->
   (max_sg c' = max_sg c /\ max_sh c' = max_sh c /\ max_ig c' = max_ig c /\ max_ix c' = max_ix c /\ max_node c' = max_node c) ->
   uniq_lt (mst_ids c') (max_mst c') -> 0 <= max_mst c' ->
   wf c'.
 Proof.
-  intros c c' P g H Ep Hg Ed End Epv Epn (E1 & E2 & E3 & E4 & E6) Hm Hm0.
+  intros c c' P g H Ep Hg Hdur Ed End Epv Epn (E1 & E2 & E3 & E4 & E6) Hm Hm0.
   assert (Ek : pol_keys c' = pol_keys c).
   { unfold pol_keys. rewrite Ep. apply updf_map_same. intros x _. destruct (Hg x) as (-> & -> & _). reflexivity. }
   constructor.
@@ -152,15 +153,17 @@ Proof.
   - rewrite Ed. eapply Forall_impl; [|exact (wf_def _ H)]. intros d. unfold default_ok. rewrite Ek. auto.
   - rewrite Epv, Epn. exact (wf_ptv _ H).
   - pose proof (nonneg_get _ H). rewrite E1, E2, E3, E4, E6, Epn. repeat (constructor; [lia|]). constructor.
+  - rewrite Ep. apply updf_Forall; [|exact (wf_dur _ H)]. intros x _ Q. apply Hdur. exact Q.
 Qed.
 
 Lemma wf_upd_pol_meta : forall c db n g, wf c ->
   (forall q, rp_db (g q) = rp_db q /\ rp_name (g q) = rp_name q /\ rp_sgs (g q) = rp_sgs q /\ rp_igs (g q) = rp_igs q /\
              subl (map ms_id (rp_msts (g q))) (map ms_id (rp_msts q))) ->
+  (forall q, 0 < rp_sgdur q -> 0 < rp_sgdur (g q)) ->
   wf (upd_pol c db n g).
 Proof.
-  intros c db n g H Hg. unfold upd_pol.
-  eapply (wf_pols_meta_gen c _ (is_pol db n) g); try reflexivity; [exact H | | cbn; tauto | | ].
+  intros c db n g H Hg Hdur. unfold upd_pol.
+  eapply (wf_pols_meta_gen c _ (is_pol db n) g); try reflexivity; [exact H | | exact Hdur | cbn; tauto | | ].
   - intros q. destruct (Hg q) as (? & ? & ? & ? & _). tauto.
   - unfold mst_ids. cbn [pols set_pols max_mst]. eapply uniq_lt_subl; [|exact (wf_mst _ H)].
     apply upd_first_flat_map_subl. intros x _. destruct (Hg x) as (_ & _ & _ & _ & S). exact S.
@@ -212,6 +215,7 @@ Proof.
     apply in_map_iff. exists p. split; [assumption|]. apply filter_In. split; [assumption|]. inversion Ep. cbv beta in Hf. unfold fp. lia.
   - eapply subl_Forall; [apply subl_filter | exact (wf_ptv _ H)].
   - exact (wf_nonneg _ H).
+  - eapply subl_Forall; [apply subl_filter | exact (wf_dur _ H)].
 Qed.
 
 (* ---------------------------------------------------------------- a policy without groups is added *)
@@ -227,12 +231,12 @@ Proof. intros c db n d sgd igd g s Hg. cbn in Hg. contradiction. Qed.
 Lemma wf_add_pol : forall c c' db n d sgd igd, wf c ->
   pols c' = pols c ++ [new_policy db n d sgd igd] ->
   (exists extra, dbs c' = dbs c ++ extra /\ NoDup (map db_name (dbs c')) /\ Forall (default_ok c') extra) ->
-  In db (map db_name (dbs c')) -> ~ In (db, n) (pol_keys c) ->
+  In db (map db_name (dbs c')) -> ~ In (db, n) (pol_keys c) -> 0 < sgd ->
   ptnum c' = ptnum c -> ptview c' = ptview c -> nodes c' = nodes c ->
   (max_sg c' = max_sg c /\ max_sh c' = max_sh c /\ max_ig c' = max_ig c /\ max_ix c' = max_ix c /\ max_mst c' = max_mst c /\ max_node c' = max_node c) ->
   wf c'.
 Proof.
-  intros c c' db n d sgd igd H Ep (extra & Ed & Hnd & Hdef) Hdb Hkey Epn Epv End (E1 & E2 & E3 & E4 & E5 & E6).
+  intros c c' db n d sgd igd H Ep (extra & Ed & Hnd & Hdef) Hdb Hkey Hsgd Epn Epv End (E1 & E2 & E3 & E4 & E5 & E6).
   assert (Ek : pol_keys c' = pol_keys c ++ [(db, n)]).
   { unfold pol_keys. rewrite Ep, map_app. reflexivity. }
   constructor.
@@ -255,6 +259,14 @@ Proof.
     eapply Forall_impl; [|exact (wf_def _ H)]. intros x. unfold default_ok. rewrite Ek, in_app_iff. tauto.
   - rewrite Epv, Epn. exact (wf_ptv _ H).
   - rewrite E1, E2, E3, E4, E5, E6, Epn. exact (wf_nonneg _ H).
+  - rewrite Ep. apply Forall_app. split; [exact (wf_dur _ H)|]. constructor; [exact Hsgd | constructor].
+Qed.
+
+Lemma norm_sgd_pos : forall sgd d, 0 < norm_sgd sgd d.
+Proof.
+  intros. unfold norm_sgd, sg_default, DAY. unfold HOUR. destruct (sgd =? 0); cbv iota.
+  - destruct (_ || _); cbv iota; [lia|]. destruct (d >=? _); cbv iota; lia.
+  - destruct (Z.ltb_spec sgd 3600000000000); lia.
 Qed.
 
 Lemma find_db_none : forall c db, find_db c db = None -> ~ In db (map db_name (dbs c)).
@@ -276,7 +288,7 @@ Proof.
   destruct (find_db c db) as [x|] eqn:Ef; [destruct (db_mark x); exact H|].
   destruct (rp =? 0); [exact H|]. destruct (negb _); [exact H|].
   cbn [fst ok]. pose proof (find_db_none _ _ Ef) as Hn.
-  eapply (wf_add_pol c _ db rp); [exact H | reflexivity | | | | reflexivity | reflexivity | reflexivity | cbn; tauto].
+  eapply (wf_add_pol c _ db rp); [exact H | reflexivity | | | | apply norm_sgd_pos | reflexivity | reflexivity | reflexivity | cbn; tauto].
   - eexists. split; [reflexivity|]. cbn [dbs set_dbs set_pols]. split.
     + rewrite map_app. apply NoDup_snoc; [exact (wf_dbn _ H) | exact Hn].
     + constructor; [|constructor]. right. unfold pol_keys. cbn [pols set_pols db_name db_default].
@@ -295,7 +307,7 @@ Proof.
   { destruct (negb _); [exact H|]. destruct (_ && _); exact H. }
   cbn [fst ok]. destruct (get_db_spec _ _ _ Eg) as (Hx & Ex & _).
   assert (W : wf (set_pols c (pols c ++ [new_policy db rp d (norm_sgd sgd d) (norm_igd 0 (norm_sgd sgd d))]))).
-  { eapply (wf_add_pol c _ db rp); [exact H | reflexivity | | | | reflexivity | reflexivity | reflexivity | cbn; tauto].
+  { eapply (wf_add_pol c _ db rp); [exact H | reflexivity | | | | apply norm_sgd_pos | reflexivity | reflexivity | reflexivity | cbn; tauto].
     - exists []. cbn [dbs set_pols]. rewrite app_nil_r. split; [reflexivity|]. split; [exact (wf_dbn _ H) | constructor].
     - cbn [dbs set_pols]. rewrite <- Ex. apply in_map. exact Hx.
     - apply find_pol_none. exact Ef. }
@@ -310,7 +322,7 @@ Proof.
   destruct (get_pol c db rp) as [p|] eqn:Eg; [|exact H]. destruct (negb _); [exact H|].
   cbn [fst ok]. destruct (get_pol_spec _ _ _ _ Eg) as (_ & Hp & Edb & _).
   match goal with |- wf (if k then set_default ?c1 _ _ else _) => assert (W : wf c1) end.
-  { apply wf_upd_pol_meta; [exact H|]. intros q. cbn. repeat split; apply subl_refl. }
+  { apply wf_upd_pol_meta; [exact H| |]; [intros q; cbn; repeat split; apply subl_refl | intros q _; cbn; apply norm_sgd_pos]. }
   destruct k; [|exact W]. apply wf_set_default; [exact W|]. right.
   rewrite pol_keys_upd_pol by (intros; cbn; tauto). rewrite <- Edb. apply In_pol_keys. exact Hp.
 Qed.
@@ -318,7 +330,7 @@ Qed.
 Lemma wf_mark_rp : forall c db rp, wf c -> wf (fst (mark_rp c db rp)).
 Proof.
   intros c db rp H. unfold mark_rp. destruct (get_pol c db rp) as [p|]; [|exact H]. cbn [fst ok].
-  apply wf_upd_pol_meta; [exact H|]. intros q. cbn. repeat split; apply subl_refl.
+  apply wf_upd_pol_meta; [exact H| |]; [intros q; cbn; repeat split; apply subl_refl | intros q Q; exact Q].
 Qed.
 
 Lemma get_pol_name : forall c db n p, get_pol c db n = Some p -> n = 0 \/ rp_name p = n.
@@ -367,7 +379,8 @@ Proof.
       eapply Forall_impl; [|exact (wf_refs _ H)]. intros p. apply refs_ok_same. symmetry. exact Epn.
     - exact Hdef.
     - rewrite Epv, Epn. exact (wf_ptv _ H).
-    - rewrite E1, E2, E3, E4, E5, E6, Epn. exact (wf_nonneg _ H). }
+    - rewrite E1, E2, E3, E4, E5, E6, Epn. exact (wf_nonneg _ H).
+    - rewrite Ep. cbn [pols c1 set_pols]. eapply subl_Forall; [apply subl_filter | exact (wf_dur _ H)]. }
   pose proof (wf_def _ H) as D.
   destruct (db_default x =? rp) eqn:Edef.
   - (* the default named the dropped policy: cleared *)
@@ -389,7 +402,7 @@ Qed.
 Lemma wf_add_mst : forall c p m ver, wf c -> find_pol c (rp_db p) (rp_name p) = Some p -> wf (add_mst c p m ver).
 Proof.
   intros c p m ver H Hf. unfold add_mst, upd_pol. pose proof (nonneg_get _ H) as NN.
-  eapply (wf_pols_meta_gen c _ (is_pol (rp_db p) (rp_name p))); try reflexivity; [exact H | | cbn; tauto | | ].
+  eapply (wf_pols_meta_gen c _ (is_pol (rp_db p) (rp_name p))); try reflexivity; [exact H | | intros q Q; exact Q | cbn; tauto | | ].
   - intros q. cbn. tauto.
   - unfold mst_ids. cbn [pols set_pols set_max_mst max_mst].
     destruct (wf_mst _ H) as [N1 N2].
@@ -420,14 +433,14 @@ Lemma wf_mark_mst : forall c db rp m, wf c -> wf (fst (mark_mst c db rp m)).
 Proof.
   intros c db rp m H. unfold mark_mst. destruct (get_pol c db rp) as [p|]; [|exact H].
   destruct (cur_mst p m) as [x|]; [|exact H]. destruct (ms_mark x); [exact H|]. cbn [fst ok].
-  apply wf_upd_pol_meta; [exact H|]. intros q. cbn [rp_db rp_name rp_sgs rp_igs rp_msts pol_set_msts]. repeat split.
+  apply wf_upd_pol_meta; [exact H| |intros q Q; exact Q]. intros q. cbn [rp_db rp_name rp_sgs rp_igs rp_msts pol_set_msts]. repeat split.
   rewrite updf_map_same; [apply subl_refl | reflexivity].
 Qed.
 
 Lemma wf_drop_mst : forall c db rp m v, wf c -> wf (fst (drop_mst c db rp m v)).
 Proof.
   intros c db rp m v H. unfold drop_mst. destruct (get_pol c db rp) as [p|]; [|exact H]. cbn [fst ok].
-  apply wf_upd_pol_meta; [exact H|]. intros q. cbn [rp_db rp_name rp_sgs rp_igs rp_msts pol_set_msts]. repeat split.
+  apply wf_upd_pol_meta; [exact H| |intros q Q; exact Q]. intros q. cbn [rp_db rp_name rp_sgs rp_igs rp_msts pol_set_msts]. repeat split.
   apply subl_map, subl_filter.
 Qed.
 
@@ -442,7 +455,7 @@ Proof.
 Qed.
 
 Definition pol_shrink (p p' : policy) : Prop :=
-  rp_db p' = rp_db p /\ rp_name p' = rp_name p /\
+  rp_sgdur p' = rp_sgdur p /\ rp_db p' = rp_db p /\ rp_name p' = rp_name p /\
   (exists mid, Forall2 sg_sim (rp_sgs p) mid /\ subl (rp_sgs p') mid) /\
   subl (map ig_id (rp_igs p')) (map ig_id (rp_igs p)) /\ subl (ix_ids_of p') (ix_ids_of p) /\
   subl (map ms_id (rp_msts p')) (map ms_id (rp_msts p)) /\
@@ -461,27 +474,27 @@ Lemma wf_pols_shrink_gen : forall c c', wf c -> Forall2 pol_shrink (pols c) (pol
 Proof.
   intros c c' H HS Ed End Epv Epn (E1 & E2 & E3 & E4 & E5 & E6).
   assert (Ek : pol_keys c' = pol_keys c).
-  { unfold pol_keys. eapply Forall2_map_eq; [|exact HS]. intros x y (-> & -> & _). reflexivity. }
+  { unfold pol_keys. eapply Forall2_map_eq; [|exact HS]. intros x y (_ & -> & -> & _). reflexivity. }
   constructor.
-  - eapply Forall2_Forall; [|exact HS|exact (wf_groups _ H)]. intros x y (_ & _ & (mid & M1 & M2) & _) Q. cbv beta in *.
+  - eapply Forall2_Forall; [|exact HS|exact (wf_groups _ H)]. intros x y (_ & _ & _ & (mid & M1 & M2) & _) Q. cbv beta in *.
     eapply groups_ok_subl; [exact M2|]. eapply sg_sim_groups_ok; eassumption.
   - unfold sg_ids. rewrite E1. eapply uniq_le_subl; [|exact (wf_sg _ H)]. apply Forall2_flat_map_subl.
-    eapply (Forall2_impl pol_shrink); [|exact HS]. intros x y (_ & _ & (mid & M1 & M2) & _). cbv beta.
+    eapply (Forall2_impl pol_shrink); [|exact HS]. intros x y (_ & _ & _ & (mid & M1 & M2) & _). cbv beta.
     rewrite <- (sg_sim_ids _ _ M1). apply subl_map. exact M2.
   - unfold sh_ids, sh_ids_of. rewrite E2. eapply uniq_le_subl; [|exact (wf_sh _ H)]. apply Forall2_flat_map_subl.
-    eapply (Forall2_impl pol_shrink); [|exact HS]. intros x y (_ & _ & (mid & M1 & M2) & _). cbv beta.
+    eapply (Forall2_impl pol_shrink); [|exact HS]. intros x y (_ & _ & _ & (mid & M1 & M2) & _). cbv beta.
     rewrite <- (sg_sim_sh_ids _ _ M1). apply subl_flat_map. exact M2.
   - unfold ig_ids. rewrite E3. eapply uniq_le_subl; [|exact (wf_ig _ H)]. apply Forall2_flat_map_subl.
-    eapply (Forall2_impl pol_shrink); [|exact HS]. intros x y (_ & _ & _ & S & _). exact S.
-  - unfold ix_ids. rewrite E4. eapply uniq_le_subl; [|exact (wf_ix _ H)]. apply Forall2_flat_map_subl.
     eapply (Forall2_impl pol_shrink); [|exact HS]. intros x y (_ & _ & _ & _ & S & _). exact S.
-  - unfold mst_ids. rewrite E5. eapply uniq_lt_subl; [|exact (wf_mst _ H)]. apply Forall2_flat_map_subl.
+  - unfold ix_ids. rewrite E4. eapply uniq_le_subl; [|exact (wf_ix _ H)]. apply Forall2_flat_map_subl.
     eapply (Forall2_impl pol_shrink); [|exact HS]. intros x y (_ & _ & _ & _ & _ & S & _). exact S.
+  - unfold mst_ids. rewrite E5. eapply uniq_lt_subl; [|exact (wf_mst _ H)]. apply Forall2_flat_map_subl.
+    eapply (Forall2_impl pol_shrink); [|exact HS]. intros x y (_ & _ & _ & _ & _ & _ & S & _). exact S.
   - unfold node_ids. rewrite End, E6. exact (wf_node _ H).
   - rewrite Ed. exact (wf_dbn _ H).
   - rewrite Ek. exact (wf_poln _ H).
-  - rewrite Ed. eapply Forall2_Forall; [|exact HS|exact (wf_poldb _ H)]. intros x y (-> & _) Q. exact Q.
-  - apply Forall_forall. intros p' Hp'. destruct (Forall2_In_r _ _ _ _ HS Hp') as [p [Hp (_ & _ & (mid & M1 & M2) & _ & _ & _ & Keep)]].
+  - rewrite Ed. eapply Forall2_Forall; [|exact HS|exact (wf_poldb _ H)]. intros x y (_ & -> & _) Q. exact Q.
+  - apply Forall_forall. intros p' Hp'. destruct (Forall2_In_r _ _ _ _ HS Hp') as [p [Hp (_ & _ & _ & (mid & M1 & M2) & _ & _ & _ & Keep)]].
     pose proof (wf_refs _ H) as Q. rewrite Forall_forall in Q. specialize (Q p Hp). intros g' s' Hg' Hs'.
     apply (subl_In _ _ _ M2) in Hg'. destruct (Forall2_In_r _ _ _ _ M1 Hg') as [g [Hg Hsim]].
     destruct Hsim as (_ & _ & _ & _ & _ & _ & X7). destruct (sh_sim_In _ _ _ X7 Hs') as [s [Hs [I1 I2]]].
@@ -489,6 +502,7 @@ Proof.
   - rewrite Ed. eapply Forall_impl; [|exact (wf_def _ H)]. intros d. unfold default_ok. rewrite Ek. auto.
   - rewrite Epv, Epn. exact (wf_ptv _ H).
   - rewrite E1, E2, E3, E4, E5, E6, Epn. exact (wf_nonneg _ H).
+  - eapply Forall2_Forall; [|exact HS|exact (wf_dur _ H)]. intros x y (-> & _) Q. exact Q.
 Qed.
 
 Lemma sg_sim_set_del : forall g, sg_sim g (sg_set_del g).
@@ -499,7 +513,7 @@ Proof.
   intros c db rp id H. unfold delete_sg. destruct (get_pol c db rp) as [p|]; [|exact H]. cbn [fst ok]. unfold upd_pol.
   eapply (wf_pols_shrink_gen c); try reflexivity; [exact H | | cbn; tauto].
   cbn [pols set_pols]. apply updf_Forall2; [apply pol_shrink_refl|]. intros q _.
-  unfold pol_shrink. cbn [rp_db rp_name rp_sgs rp_igs rp_msts pol_set_sgs]. repeat split; try apply subl_refl; [|auto].
+  unfold pol_shrink. cbn [rp_sgdur rp_db rp_name rp_sgs rp_igs rp_msts pol_set_sgs]. repeat split; try apply subl_refl; [|auto].
   eexists. split; [|apply subl_refl]. apply updf_Forall2; [apply sg_sim_refl | intros; apply sg_sim_set_del].
 Qed.
 
@@ -510,7 +524,7 @@ Proof.
   cbn [pols set_pols]. apply updf_Forall2; [apply pol_shrink_refl|]. intros q _.
   assert (EI : ix_ids_of (pol_set_igs q (upd_first (fun g => ig_id g =? id) ig_set_del (rp_igs q))) = ix_ids_of q).
   { unfold ix_ids_of. cbn [rp_igs pol_set_igs]. apply updf_flat_map_same. reflexivity. }
-  unfold pol_shrink. rewrite EI. cbn [rp_db rp_name rp_sgs rp_igs rp_msts pol_set_igs]. repeat split; try apply subl_refl; [| |auto].
+  unfold pol_shrink. rewrite EI. cbn [rp_sgdur rp_db rp_name rp_sgs rp_igs rp_msts pol_set_igs]. repeat split; try apply subl_refl; [| |auto].
   - exists (rp_sgs q). split; [|apply subl_refl]. clear. induction (rp_sgs q); constructor; [apply sg_sim_refl | assumption].
   - rewrite updf_map_same; [apply subl_refl | reflexivity].
 Qed.
@@ -525,10 +539,10 @@ Lemma prune_sg_pol_shrink : forall c id p, pol_shrink p (prune_sg_pol c id p).
 Proof.
   intros c id p. unfold prune_sg_pol.
   assert (B : pol_shrink p (pol_set_sgs p (filter (fun g => negb (sg_gone g)) (map (prune_mark_sg id) (rp_sgs p))))).
-  { unfold pol_shrink. cbn [rp_db rp_name rp_sgs rp_igs rp_msts pol_set_sgs]. repeat split; try apply subl_refl; [|auto].
+  { unfold pol_shrink. cbn [rp_sgdur rp_db rp_name rp_sgs rp_igs rp_msts pol_set_sgs]. repeat split; try apply subl_refl; [|auto].
     exists (map (prune_mark_sg id) (rp_sgs p)). split; [|apply subl_filter]. apply Forall2_map_r. apply sg_sim_prune_mark. }
   destruct (_ && _); [|exact B].
-  destruct B as (B1 & B2 & B3 & B4 & B5 & B6 & B7). unfold pol_shrink. cbn [rp_db rp_name rp_sgs rp_igs rp_msts pol_set_sgs pol_set_msts] in *.
+  destruct B as (B0 & B1 & B2 & B3 & B4 & B5 & B6 & B7). unfold pol_shrink. cbn [rp_sgdur rp_db rp_name rp_sgs rp_igs rp_msts pol_set_sgs pol_set_msts] in *.
   repeat split; try assumption.
   rewrite map_map. erewrite map_ext; [apply subl_refl|]. intros a. cbv beta.
   destruct (assoc (ms_name a) (rp_vers p)); [destruct (ms_ver a =? z)|]; reflexivity.
@@ -557,7 +571,7 @@ Proof.
   eapply (wf_pols_shrink_gen c); try reflexivity; [exact H | | cbn; tauto].
   cbn [pols set_pols].
   assert (G : forall p, In p (pols c) -> pol_shrink p (prune_ig_pol id p)).
-  { intros p Hp. unfold pol_shrink, prune_ig_pol. cbn [rp_db rp_name rp_sgs rp_igs rp_msts pol_set_igs]. repeat split; try apply subl_refl.
+  { intros p Hp. unfold pol_shrink, prune_ig_pol. cbn [rp_sgdur rp_db rp_name rp_sgs rp_igs rp_msts pol_set_igs]. repeat split; try apply subl_refl.
     - exists (rp_sgs p). split; [|apply subl_refl]. clear. induction (rp_sgs p); constructor; [apply sg_sim_refl | assumption].
     - eapply subl_trans; [apply subl_map, subl_filter|]. rewrite map_map. erewrite map_ext; [apply subl_refl|].
       intros a. apply prune_mark_ig_ids.
